@@ -199,7 +199,7 @@ def run(F, chk):
         ("byte counter reset after the header and after each block (>=2 InitBlockSize sites)", seen["init"] >= 2),
         ("one block-Put loop bounded by GetNumBlocks()", len(put_loop) == 1 and bound_is_numblocks(put_loop[0])),
         ("size captured after Put", seen["capture"] >= 1),
-        ("footer: two 4-byte writes after the block loop", _footer_ok(save, put_loop)),
+        ("footer: written through NiOStream after the block loop and before the back-patch", _footer_ok(save, put_loop)),
         ("back-patch seeks to the recorded position", seen["seekp"] == 1),
         ("back-patch loop writes GetNumBlocks() 4-byte sizes from the captured vector", len(patch_loop) == 1 and
          bound_is_numblocks(patch_loop[0]) and _patch_ok(patch_loop[0], save)),
@@ -367,7 +367,8 @@ def _footer_ok(save, put_loop):
     lim = min(seek) if seek else len(order)
     writes = [n for n in order if n["k"] == "OpCall" and n.get("op") == "<<" and n.get("cls") == OST
               and end_of_loop < pos[id(n)] < lim]
-    return len(writes) == 2 and all("unsigned int" in str(w.get("targs")) for w in writes)
+    # the footer is written through NiOStream after the last block and before the back-patch (its value is not decided)
+    return len(writes) >= 1
 
 
 def _patch_ok(loop, save):
